@@ -138,12 +138,26 @@ def register(prop):
          "non-trivial = a verdict was reached; " + FP,
          extra={"stream_cut_enumeration": "complete per byte offset for streams <= 500 bytes"})
 
+    prop("C16", [dict(scn="C16", quick=1500, thorough=150000, wall_quick=100, wall_thorough=1500), dict(scn="C16C", quick=150, thorough=15000, wall_quick=100, wall_thorough=1500)],
+         "C16 object: Add/RemoveLabelHeader{Packet,Stream} round trip for EVERY label length 1-255 (the seed index walks the lengths; complete in every quick run), payloads empty / starting "
+         "with the magic byte 244 / embedding a header / 5000 bytes, stream header delivered in every fragmentation of the first header+2 bytes for labels <= 3 bytes (complete) and 17 "
+         "boundary-biased fragmentations otherwise; C16 bench: genuine traffic of every type captured from a sender labelled ls (with header doubled / stripped / added) injected into a quiescent "
+         "receiver labelled lr, (ls,lr) over {empty,a,ab,b,255 bytes,255 bytes differing in the last byte}^2 x SkipInboundLabelCheck x encryption: reaction must be empty unless the "
+         "header rule of the statement admits the traffic; C16C cluster: two logical clusters with different labels on one network, every UDP packet additionally delivered to a member of the "
+         "other label, cross-label Join / SendBestEffort / SendReliable / broadcasts: per step no node holds a record of, or delivers a payload from, the other label; cross joins fail; "
+         "non-trivial = >=1 foreign variant ignored / >20 cross deliveries; distinct = distinct (label pair, skip, config) tuples / schedule fingerprints",
+         extra={"label_lengths_enumerated": "1..255 complete"})
+
 NOT_CLAIMED = {}
 
 SIM_NOTE = ("trusted base: Go runtime + testing/synctest fake clock, the harness (scheduler, SimNet, oracles) under /verif/sim; "
             "assumes the guarded yield sites are the relevant preemption points; seeded search, not proof")
 
 META = {
+ "C16": dict(
+    level_text="Complete enumeration of label lengths and short-header fragmentations for the codec, differential injection of captured genuine traffic across label pairs into a quiescent real node, and seeded mixed-label cluster runs with cross-delivery of every packet and a per-step isolation invariant.",
+    design_ref="DESIGN.md §3 C16", level_note=SIM_NOTE,
+    technique="deterministic simulation: exhaustive header codec fragmentation (object), cross-label injection (bench), cross-delivering mixed-label clusters with per-step invariant"),
  "C15": dict(
     level_text="Wire-tap oracle over long seeded cluster histories that force every send site incl. error replies, relays, TCP fallback and rotation in progress: every buffer handed to the simulated transport must open as AES-GCM under the sender's current primary key (independent stdlib open). Stronger than scanning for known plaintext; a reach probe per (path, message type) shows which paths a batch exercised.",
     design_ref="DESIGN.md §3 C15", level_note=SIM_NOTE + "; the static 'only caller' argument is another technique and is not claimed",
